@@ -33,13 +33,24 @@ CLAIMS = {
  "C04": ("proof", "Frame theorem by induction over the evaluator: a statement changes at most the innermost frame, @if leaves the chain "
          "unchanged; type stability and the reserved name over any sequence of assignments (fold). Tied by correspondence.", "8.C04",
          "invariant by induction over evaluator fuel and over assignment sequences"),
- "C05": ("other", "Text/segment specification in Coq, extracted; exhaustive short strings over the escape/comment alphabet and spliced "
-         "segments must render as the specification says. " + PENDING, "8.C05",
-         "extracted Coq specification as oracle + lexer model correspondence (theorems pending)"),
- "C06": ("other", "Loader model + substitution specification of layouts, extracted; generated trees. " + PENDING, "8.C06",
-         "extracted Coq specification as oracle + loader model correspondence (theorems pending)"),
- "C07": ("other", "Loader model + per-use substitution specification of components, extracted; generated trees. " + PENDING, "8.C07",
-         "extracted Coq specification as oracle + loader model correspondence (theorems pending)"),
+ "C05": ("proof", "PARTIAL (plain text proved; escapes and comments decided on generated instances). Theorem: for every byte string with no "
+         "NUL, no '{{' and no '@' that starts a directive keyword (table regenerated from token.go) the lexer model yields one text token "
+         "whose literal is the input then EOF (loop invariant of readHTML), the parser one HTML statement, and the model's render is the "
+         "input itself for any data; the reference scanner of Spec/Text.v is the identity on such text. Exhaustive short strings over the "
+         "escape/comment alphabet and spliced segments run against the reference scanner.", "8.C05",
+         "loop-invariant proof over the lexer model + parser/evaluator computation + extracted reference scanner as oracle"),
+ "C06": ("proof", "Step theorems on the loader and evaluator model: a page with @use loads to the layout's program alone; inserts are attached "
+         "to their reserves wherever these stand; a filled reserve shows exactly what the insert's body or expression renders in place, an "
+         "unfilled one nothing; insert without reserve and missing layout are load errors, a layout using a layout fails at render; '~x' is "
+         "'layouts/x'. The end-to-end substitution equation is decided on generated trees (String(page) = EvaluateString of the layout text "
+         "with reserves textually replaced).", "8.C06",
+         "definitional step theorems on loader/evaluator model + correspondence + substitution oracle on generated trees"),
+ "C07": ("proof", "Theorems on the loader and evaluator model: every use of a component is resolved on its own (block = function of the file "
+         "and that use's slots), a passed body goes to the first top-level placeholder of its name and nothing else changes (induction over "
+         "the statement list), undeclared slot / slot passed twice / missing file are load errors naming the component, a use evaluates its "
+         "arguments in the caller's scope and renders in a fresh scope on top of it, a placeholder shows the passed body or nothing. "
+         "End-to-end output of pages with several uses is decided on generated trees against the per-use substitution oracle.", "8.C07",
+         "step theorems + induction over statement lists on the loader model + correspondence + per-use substitution oracle"),
  "C08": ("proof", "PARTIAL: lexer totality proved (NextToken returns from every state within a fuel bound linear in the remaining "
          "input); the parser's loop guards are regenerated from parser.go and pinned by a theorem. Parser termination and the "
          "program-or-error contract are decided by correspondence and oracle over exhaustive lexeme sequences and mutations.", "8.C08",
@@ -67,8 +78,13 @@ CLAIMS = {
          "is tied to NativeToObject/EnvFromMap/evalObjectIndexExp by type-directed Go values built by reflection; caller-data immutability "
          "is observed by deep comparison, not proved.", "8.C12",
          "structural induction over Go values (custom nested induction principle) + correspondence on reflected data"),
- "C13": ("other", "Fault injection with the line known by construction; model lines = implementation lines. " + PENDING, "8.C13",
-         "fault injection oracle + model correspondence (theorems pending)"),
+ "C13": ("proof", "PARTIAL (from source text to token end line is C19; fixed-width tokens proved there). Proved here: every AST node keeps "
+         "the line on which its token ends; which node's line each kind of fault reports (undefined identifier, mistyped operands and "
+         "division by zero: left operand; unknown function: the name; unknown property: the dot / the index expression; unexpected token: "
+         "the peeked token); every enclosing construct passes the error on unchanged; a failing render names the template's own file, a "
+         "load error the file being parsed. End to end: one fault of each kind injected at a line known by construction behind every kind "
+         "of multi-line token.", "8.C13",
+         "step theorems on parser/evaluator/loader model + C19 position invariant + fault injection with known line"),
  "C14": ("proof", "A Go map is an association list with distinct keys presented in an arbitrary permutation. Theorems: the key sort of two "
          "presentations is the same list (strict total order on byte strings, uniqueness of sorted permutations), hence data binding, object "
          "printing, object literals, component arguments, the first undefined insert and the first faulty file are independent of the "
